@@ -257,6 +257,11 @@ def binpkg_scenarios():
          "needed": False, "installed": []},
         {"name": "binpkg-replace-same-version", "repo": "binpkg", "op": "replace", "pre": [old, by], "old": cpv(old),
          "new": same_new, "needed": False, "installed": []},
+        # rebuild of the same cpv whose .tbz2 carries an mtime in the SAME SECOND as the replaced one (immediate
+        # rebuild): the Packages cache cannot tell the files apart by int(mtime), so between the rename and the cache
+        # commit a fresh view must still not mix cached keys of the old build with the xpak of the new one
+        {"name": "binpkg-replace-same-version-same-second", "repo": "binpkg", "op": "replace", "pre": [old, by],
+         "old": cpv(old), "new": same_new, "needed": False, "installed": [], "same_second": True},
         {"name": "binpkg-replace-new-version", "repo": "binpkg", "op": "replace", "pre": [old, by], "old": cpv(old),
          "new": newer_foo, "needed": False, "installed": []},
         {"name": "binpkg-replace-new-revision", "repo": "binpkg", "op": "replace", "pre": [old], "old": cpv(old),
